@@ -1050,6 +1050,17 @@ class Interp:
         return isinstance(k, ElemV) and k.loop == lid
 
     def comp(self, n, env: Env, kind):
+        if len(n.generators) == 2 and not n.generators[0].ifs and not n.generators[1].ifs and isinstance(n.generators[0].target, ast.Name) \
+                and isinstance(n.generators[1].target, ast.Name) and isinstance(n.generators[1].iter, ast.Name) \
+                and n.generators[1].iter.id == n.generators[0].target.id and isinstance(n.elt, ast.Name) and n.elt.id == n.generators[1].target.id:
+            # `[x for part in PARTS for x in part]`: the parts one after the other
+            outer = self.ev(n.generators[0].iter, env)
+            self.record_iter(kind + "comp", n, n.generators[0].iter, outer, env)
+            if isinstance(outer, tuple) and outer and outer[0] == "COLS":
+                return FlatV(outer[1], outer[2])          # major index: which part; minor: the position inside the part
+            if isinstance(outer, SymMatV) and outer.cols != ONE:
+                return FlatV(outer.rows, outer.cols)
+            return Unknown("nested comp")
         if len(n.generators) != 1:
             return Unknown("comp")
         g = n.generators[0]
@@ -1071,6 +1082,8 @@ class Interp:
                 return SeqV(it.rows, "expr")
             return FlatV(it.rows, it.cols)
         lay = self.layout_of_iter(it)
+        if lay is not None and isinstance(v, SymMatV) and v.cols == ONE:
+            return ("COLS", lay, v.rows)                  # one column vector per element of the iterated layout
         if lay is not None:
             return SeqV(lay, tag_of(v))
         if isinstance(it, (CollV, UnordSeqV)):
@@ -1420,6 +1433,8 @@ class Interp:
                 return ("VALUES", base)
             if attr == "get":
                 return self.map_value(base)
+        if isinstance(base, SymMatV) and attr == "diff" and len(args) == 1 and not kwargs:
+            return SymMatV(base.rows, base.cols)           # elementwise derivative: same shape, same row / column meaning
         if isinstance(base, SymMatV) and attr == "jacobian":
             wrt = args[0]
             lay = self.layout_of_iter(wrt)
